@@ -138,7 +138,7 @@ func C01(c *vh.Ctx) {
 	c.Bound("S1_pattern_nodes_max", pmax)
 	c.Bound("S1_message_nodes_max", mmax)
 	c.Rule("S1: every (pattern,message,bindings) with |P|<=bound, |M|<=bound over atoms {1,2,\"a\",true,null}, keys {a,b}, variables " + fmt.Sprint(c01Vars) +
-		", bindings = {} / each variable x value list / each pair x short list. Enumeration is an odometer (duplicate-free); non-trivial = Match returned >=1 binding set for a pattern that has variables.")
+		", bindings = {} / each variable x value list / each pair x short list. S2 (pattern-directed): every pattern with variables up to a larger bound over a two-letter alphabet (incl. inequality variables), every assignment of planted values / inequality bounds, messages = the instantiated pattern plus every combination of up to k edits (insertions of extra keys/elements incl. near-copies, atom changes, dropped keys, dropped or duplicated array elements), bindings = the inequality bounds plus nothing / each variable pre-bound to its planted value, to generalisations of it, or to conflicting values; the unedited core also wrapped 1-4 levels deep. Enumeration is an odometer (duplicate-free); non-trivial = Match returned >=1 binding set for a pattern that has variables.")
 	pats := ps.UpTo(pmax)
 	msgs := ms.UpTo(mmax)
 	if c.Shard == 0 {
@@ -161,4 +161,211 @@ func C01(c *vh.Ctx) {
 			}
 		}
 	}
+	c01S2(c)
+}
+
+// mutations returns every message obtained from m by one destructive edit: change an atom,
+// drop a key, drop or duplicate an array element.
+func mutations(m interface{}) []interface{} {
+	var out []interface{}
+	var rec func(x interface{}, rebuild func(interface{}) interface{})
+	rec = func(x interface{}, rebuild func(interface{}) interface{}) {
+		switch v := x.(type) {
+		case map[string]interface{}:
+			for k := range v {
+				n := jgen.Clone(v).(map[string]interface{})
+				delete(n, k)
+				out = append(out, rebuild(n))
+			}
+			for k, e := range v {
+				k := k
+				rec(e, func(ne interface{}) interface{} {
+					n := jgen.Clone(v).(map[string]interface{})
+					n[k] = ne
+					return rebuild(n)
+				})
+			}
+		case []interface{}:
+			for i := range v {
+				n := append(append([]interface{}{}, v[:i]...), v[i+1:]...)
+				out = append(out, rebuild(jgen.Clone(n)))
+				d := append(append([]interface{}{}, v...), jgen.Clone(v[i]))
+				out = append(out, rebuild(jgen.Clone(d)))
+			}
+			for i, e := range v {
+				i := i
+				rec(e, func(ne interface{}) interface{} {
+					n := jgen.Clone(v).([]interface{})
+					n[i] = ne
+					return rebuild(n)
+				})
+			}
+		default:
+			for _, a := range []interface{}{"a", "b", 1.0, 2.0, nil, true, map[string]interface{}{}, []interface{}{}} {
+				if rmatch.Canon(a) != rmatch.Canon(x) {
+					out = append(out, rebuild(a))
+				}
+			}
+		}
+	}
+	rec(m, func(x interface{}) interface{} { return x })
+	return out
+}
+
+// generalisations of a planted value (sub-patterns that contain it) and a conflicting value
+func preBindings(v string, planted interface{}) []interface{} {
+	out := []interface{}{planted}
+	switch pv := planted.(type) {
+	case map[string]interface{}:
+		out = append(out, map[string]interface{}{})
+		for k := range pv {
+			n := jgen.Clone(pv).(map[string]interface{})
+			delete(n, k)
+			out = append(out, n)
+		}
+	case []interface{}:
+		out = append(out, []interface{}{})
+	}
+	out = append(out, "conflict", 7.0, map[string]interface{}{"zz": 1.0})
+	return out
+}
+
+func wrap(p, m interface{}, depth int) (interface{}, interface{}) {
+	for i := 0; i < depth; i++ {
+		if i%2 == 0 {
+			p, m = map[string]interface{}{"a": p}, map[string]interface{}{"a": m, "b": "side"}
+		} else {
+			p, m = []interface{}{p, 1.0}, []interface{}{"side", m, 1.0}
+		}
+	}
+	return p, m
+}
+
+// c01S2: pattern-directed soundness - larger patterns, messages near an instantiation, pre-bound
+// variables as themselves / as generalisations / in conflict, inequality bounds, depth wrapping.
+func c01S2(c *vh.Ctx) {
+	ps := &jgen.Spec{Atoms: []interface{}{"a", "b", 1.0}, Vars: []string{"?x", "?y", "?", "??o", "?<n", "?!=n"}, Keys: []string{"a", "b"}, PropVars: []string{"?x", "?"}, MaxArr: 3}
+	pmax := c.Pick(4, 5)
+	edits := c.Pick(1, 2)
+	c.Bound("S2_pattern_nodes_max", pmax)
+	c.Bound("S2_edits_max", edits)
+	pats := ps.UpTo(pmax)
+	if c.Shard == 0 {
+		c.Count("S2_patterns", int64(len(pats)))
+	}
+	for i, p := range pats {
+		if !c.Mine(uint64(i)) {
+			continue
+		}
+		if c.Expired() {
+			return
+		}
+		if jgen.Size(p) < 3 {
+			continue // S1 covers the small ones exhaustively
+		}
+		vs := map[string]bool{}
+		rmatch.Vars(p, vs)
+		if len(vs) == 0 {
+			continue
+		}
+		for _, sigma := range c01Assignments(p, vs) {
+			m0 := instantiate(p, sigma.msg)
+			level := []interface{}{m0}
+			all := []interface{}{m0}
+			seen := map[string]bool{rmatch.Canon(m0): true}
+			for d := 0; d < edits; d++ {
+				var next []interface{}
+				for _, m := range level {
+					for _, dm := range append(distractions(m), mutations(m)...) {
+						k := rmatch.Canon(dm)
+						if !seen[k] {
+							seen[k] = true
+							next = append(next, dm)
+						}
+					}
+				}
+				all = append(all, next...)
+				level = next
+				if len(all) > 1500 {
+					break
+				}
+			}
+			// bindings: the inequality bounds always; plus nothing / each other variable pre-bound in several ways
+			var bss []M
+			bss = append(bss, copyB(sigma.bounds))
+			for v, planted := range sigma.msg {
+				if _, _, ineq := rmatch.ParseIneq(v); ineq {
+					continue
+				}
+				for _, val := range preBindings(v, planted) {
+					b := copyB(sigma.bounds)
+					b[v] = val
+					bss = append(bss, b)
+				}
+			}
+			for mi, m := range all {
+				for _, b := range bss {
+					soundOne(c, matchCase{p, m, b}, true)
+					c.Count("S2_evaluations", 1)
+				}
+				if mi == 0 {
+					for depth := 1; depth <= 4; depth++ {
+						wp, wm := wrap(p, m, depth)
+						for _, b := range bss {
+							soundOne(c, matchCase{wp, wm, b}, true)
+							c.Count("S2_deep_evaluations", 1)
+						}
+					}
+				}
+			}
+		}
+	}
+}
+
+type c01Sigma struct {
+	msg    M // what stands in the message at each variable's place
+	bounds M // pre-bound inequality variables
+}
+
+func c01Assignments(p interface{}, vs map[string]bool) []c01Sigma {
+	var names []string
+	for v := range vs {
+		if v != "?" {
+			names = append(names, v)
+		}
+	}
+	sort.Strings(names)
+	occ := map[string]int{}
+	varOccurrences(p, occ)
+	out := []c01Sigma{{msg: M{}, bounds: M{}}}
+	for _, v := range names {
+		var next []c01Sigma
+		_, _, ineq := rmatch.ParseIneq(v)
+		for _, s := range out {
+			if ineq {
+				for _, mv := range []interface{}{1.0, 2.0} {
+					for _, bound := range []interface{}{1.0, 2.0} {
+						n := c01Sigma{msg: copyB(s.msg), bounds: copyB(s.bounds)}
+						n.msg[v], n.bounds[v] = mv, bound
+						next = append(next, n)
+					}
+				}
+				continue
+			}
+			vals := plantValues
+			if occ[v] > 1 {
+				vals = []interface{}{"a", 1.0, M{"a": "b"}}
+			}
+			for _, val := range vals {
+				n := c01Sigma{msg: copyB(s.msg), bounds: copyB(s.bounds)}
+				n.msg[v] = val
+				next = append(next, n)
+			}
+		}
+		out = next
+		if len(out) > 64 {
+			out = out[:64]
+		}
+	}
+	return out
 }
